@@ -108,8 +108,15 @@ def emitChk (m : Mode) (k : UK) : Except Err Unit :=
   | some 0 => .error .undefinedError
   | _ => .ok ()
 
-/-- `Environment::format` (custom formatter path of `Emit`) -/
-def envFormatChk (m : Mode) (k : UK) : Except Err Unit := check MJ.Gen.undefEnvFormat m k.code
+/-- `Environment::format` (the path `Emit` takes when a custom formatter is installed): which
+    (mode, undefined kind) pairs are an error, which reach the formatter (`ok true`), and which
+    return `Ok(())` without consulting it (`ok false`; no such row in the pinned source). -/
+def envFormat (m : Mode) (k : UK) : Except Err Bool :=
+  match lookupRow MJ.Gen.undefEnvFormat m.code k.code with
+  | some 0 => .error .undefinedError
+  | some 1 => .ok true
+  | some 2 => .ok false
+  | _ => .error .noRow
 
 /-- the inline test of `Instruction::Slice`: `a.is_undefined() && matches!(mode, Strict)` -/
 def sliceChk (m : Mode) (k : UK) : Except Err Unit :=
